@@ -16,6 +16,10 @@ Case language (one command per line; the same lines are parsed by harness/c14/c1
   react <tok>,<tok>,...     scripted reactions of this user's receive_snoop (LPC), one per call: e echo the text to itself,
                             t<j> tell user j, d<j> destruct user j, x raise an error, n nothing.  After the first `react`
                             every write prints the state of every user.
+  input <hex>               the peer of a PORT_TELNET user sends these bytes; one poll + process_io pass: get_user_data ->
+                            copy_chars (telnet decoder) -> negotiation replies through add_message / flush_message, then the
+                            user's write-ready event; other users: their write-ready events.  A plain pass for other kinds of
+                            user, closed users and in cases that script reactions.
   (wbeg/wend come from the add_message hook of src/comm.c, `close` from the interposed close())
 
 Trace lines:
@@ -31,7 +35,7 @@ from nvlib import extract as X
 from nvlib.check import Prop
 from props import c14_extract as T
 
-N = 4096  # MESSAGE_BUF_SIZE; only used to aim the generators (the model uses the regenerated constant)
+N = 4096  # MESSAGE_BUF_SIZE: re-read from src/comm.h on every run (gen_extra); aims the generators and boundary cases
 
 
 def hx(b):
@@ -54,7 +58,7 @@ def vw(b):
 class C14(Prop):
     id = "C14"
     title = "Output reaches the client in order, exactly once, under any write pattern"
-    lean_modules = ["NV.C14.Props", "NV.C14.PropsHist", "NV.C14.PropsNeg", "NV.C14.PropsMulti"]
+    lean_modules = ["NV.C14.Props", "NV.C14.PropsHist", "NV.C14.PropsNeg", "NV.C14.PropsMulti", "NV.C14.PropsClose"]
     theorems = ["NV.C14.model_satisfies_spec", "NV.C14.ring_inv", "NV.C14.ring_indices_in_bounds",
                 "NV.C14.chunk_in_bounds", "NV.C14.no_fault", "NV.C14.write_interest_when_pending",
                 "NV.C14.N_two_le", "NV.C14.only_tail_lost", "NV.C14.write_stores_prefix_image",
@@ -63,14 +67,26 @@ class C14(Prop):
                 # several users, snoop links, add_message re-entered from a snooper's receive_snoop
                 "NV.C14.world_user_stream", "NV.C14.multi_user_stream_ok", "NV.C14.multi_model_satisfies_spec",
                 "NV.C14.multi_delivered_is_stored",
+                # pending bytes at close: what is promised
+                "NV.C14.close_loses_only_unsent_suffix", "NV.C14.close_delivers_all_when_socket_accepts",
+                "NV.C14.flushLoop_drains", "NV.C14.peerfin_sends_nothing",
                 # bridges between the definitions regenerated from src/comm.c and the ring operations
                 "NV.C14.chunkLen_eq", "NV.C14.producerNext_eq", "NV.C14.consumerNext_eq", "NV.C14.lengthAfterSend_eq",
                 "NV.C14.thrFull_eq", "NV.C14.thrLF_eq", "NV.C14.keepsData_eq", "NV.C14.keepsData_pipe",
                 "NV.C14.LF_CR_values"]
     consts = [("messageBufSize", "MESSAGE_BUF_SIZE"), ("eWouldBlock", "EWOULDBLOCK"), ("eIntr", "EINTR"),
-              ("ePipe", "EPIPE")]
+              ("ePipe", "EPIPE"),
+              # telnet decoder (copy_chars): protocol bytes and option numbers
+              ("tnIAC", "IAC"), ("tnDO", "DO"), ("tnDONT", "DONT"), ("tnWILL", "WILL"), ("tnWONT", "WONT"), ("tnSB", "SB"),
+              ("tnSE", "SE"), ("tnBREAK", "BREAK"), ("tnIP", "IP"), ("tnAYT", "AYT"), ("tnAO", "AO"),
+              ("optSGA", "TELOPT_SGA"), ("optTM", "TELOPT_TM"), ("optTTYPE", "TELOPT_TTYPE"), ("optNAWS", "TELOPT_NAWS"),
+              ("optLINEMODE", "TELOPT_LINEMODE"), ("lmMODE", "LM_MODE"), ("lmSLC", "LM_SLC"), ("modeACK", "MODE_ACK"),
+              ("modeEDIT", "MODE_EDIT"), ("modeTRAPSIG", "MODE_TRAPSIG"), ("slcACK", "SLC_ACK"),
+              ("slcNOSUPPORT", "SLC_NOSUPPORT"), ("slcLEVELBITS", "SLC_LEVELBITS"), ("slcDEFAULT", "SLC_DEFAULT"),
+              ("slcVARIABLE", "SLC_VARIABLE"), ("slcCANTCHANGE", "SLC_CANTCHANGE"), ("nSLC", "NSLC"),
+              ("sbSize", "SB_SIZE")]
     const_headers = ["src/comm.h"]
-    const_prelude = "#include <errno.h>"
+    const_prelude = "#include <errno.h>\n#include <arpa/telnet.h>"
     quick_n = 250
     thorough_n = 3000
     search_n = 800
@@ -82,16 +98,19 @@ class C14(Prop):
                   "(add_message, add_vmessage, flush_message, the flush points in get_user_command, process_io and "
                   "remove_interactive) for all message sequences and all scripts of send() results, and about a world of "
                   "several users (routing, driver passes over all users, snoop links, add_message re-entered from a "
-                  "snooper's receive_snoop that writes, destructs users or raises an error): every user's stream of every "
-                  "world run is proved to be a single-user run and to satisfy the specification oracle; the model is tied "
-                  "to the source by regenerated constants / expressions / 33 statement-shape checks and by running the real "
+                  "snooper's receive_snoop that writes, destructs users or raises an error, telnet negotiation replies "
+                  "written by copy_chars while input bytes are decoded, interleaved with text): every user's stream of every "
+                  "world run is proved to be a single-user run and to satisfy the specification oracle; at close only an unsent "
+                  "suffix of the pending bytes is lost and nothing is lost when the socket accepts; the model is tied "
+                  "to the source by regenerated constants / expressions / telnet reply strings / 33 statement-shape checks and by running the real "
                   "comm.c code (real setup_accepted_connection on socketpairs, real epoll runtime, real LPC user objects, "
                   "interposed send()/write()/close(), every add_message call observed through a guarded hook) and the model "
                   "on the same generated histories; the Lean specification oracle judges every implementation trace")
     level_note = ("trusted: Lean kernel; extract.py; the correspondence harness (differential, only the generated "
                   "histories); the socket is an oracle script of send() results; write interest is observed at the "
                   "epoll_ctl() boundary; the snooper's LPC behaviour is a script of reactions (echo / tell / destruct / "
-                  "error / nothing), other LPC behaviour is not modelled; no input traffic")
+                  "error / nothing), other LPC behaviour is not modelled; of the input path only the output calls of "
+                  "copy_chars are mirrored (hand-copied control flow, regenerated constants; framing is C13's)")
     rule = ("cases = corpus + known-finding inputs + boundary list (messages of N-1/N/N+1/3N bytes, LF arriving at "
             "length N-2/N-1/N, partial sends ending at/before/after the wrap point, all-EWOULDBLOCK, EPIPE mid-write, "
             "EINTR, close/peer close/peer FIN with pending data) + seeded random histories of write/vwrite/sendres/"
@@ -110,22 +129,34 @@ class C14(Prop):
     not_covered = ["console reconnect (console_mode option: the reconnect prompt is written after CLOSING is set and is "
                    "therefore never stored - seen by reading, not run) and the console worker thread; the console user's "
                    "output path itself (write(2) branch of flush_message, flush at the end of add_message) is modelled and run",
-                   "telnet negotiation replies written from copy_chars (input driven) interleaved with text: they use the same "
-                   "add_message/flush_message calls (now visible through the add_message hook), but no C14 case sends input "
-                   "bytes; the input-side snoop forwarding of get_user_data is not run either",
+                   "telnet input: the control flow of copy_chars' output side is hand-copied (constants and reply strings are "
+                   "regenerated, behaviour compared on every run); input is not fed in cases that script snooper reactions (a "
+                   "snooper destructing the user inside copy_chars' add_message, or in get_user_data's input-side snoop "
+                   "forwarding, is a use after free of the input code: read, not run - C09/C13); SINGLE_CHAR mode and the "
+                   "terminal_type / window_size / telnet_suboption callbacks are left to C13",
                    "snooper LPC code other than the scripted reactions (echo / tell / destruct / error); a leak of the "
                    "formatted string when the snooper raises an error inside add_vmessage is not observed (leak detection off)",
                    "the lazy creation of users by the case driver happens between world runs; the several-user theorems "
                    "are stated for world runs (they compose: multi_user_stream_ok re-establishes its hypothesis)",
-                   "MSG_OOB flag (telnet AO) of the first send after an abort-output request",
+                   "MSG_OOB flag (telnet AO) of the first send after an abort-output request (the reply bytes are modelled, "
+                   "the flag is not observed)",
+                   "the flush attempt of remove_interactive is a model theorem (PropsClose) and compared, not an oracle clause: "
+                   "the property allows loss at close, so a change that drops it yields no-failing-input-found",
                    "telnet IAC doubling is not done by the code and not claimed",
                    "builds with FLUSH_OUTPUT_IMMEDIATELY",
                    "Windows IOCP runtime (only the Linux epoll runtime is run)"]
 
-    def gen_extra(self, ctx, bdir):
+    def _gen_extra(self, ctx, bdir):
         """chunk rule, index updates, ring-full tests, CR/LF bytes and the errno classification of flush_message,
         translated from the text of src/comm.c (props/c14_extract.py); TieBroken when a site cannot be located"""
+        global N
         src = open(os.path.join(E.REPO, "src/comm.c"), errors="replace").read()
+        try:
+            n = X.probe_values(bdir, [("v", "MESSAGE_BUF_SIZE")], self.const_headers, self.const_prelude)["v"]
+            if 64 <= n <= 1 << 20:
+                N = n       # boundary cases and generators follow a changed buffer size
+        except X.TieBroken:
+            pass
 
         def errno_value(name):
             try:
@@ -134,8 +165,30 @@ class C14(Prop):
                 raise X.TieBroken("guard:flush_message.errno", "errno name %s of flush_message is not a constant" % name)
         sites = T.shape_checks(lambda rel: open(os.path.join(E.REPO, rel), errors="replace").read())
         self.shape_sites = sites
-        return T.extract(src, errno_value) + "\n\n-- control-flow shapes checked against the source on this run (props/c14_extract.py SHAPES):\n-- " \
+        cfg = open(os.path.join(bdir, "config.h"), errors="replace").read()
+        pk = re.search(r'#define PACKAGE "([^"]*)"', cfg)
+        ve = re.search(r'#define VERSION "([^"]*)"', cfg)
+        if not pk or not ve:
+            raise X.TieBroken("guard:config.PACKAGE", "PACKAGE / VERSION not found in the generated config.h")
+        return T.extract(src, errno_value, (pk.group(1), ve.group(1))) + "\n\n-- control-flow shapes checked against the source on this run (props/c14_extract.py SHAPES):\n-- " \
             + "\n-- ".join(sites)
+
+    def gen_extra(self, ctx, bdir):
+        """as _gen_extra; when a site has left the translatable shape (tie broken) the plain constants are STILL regenerated
+        (with the last good translation of the expressions), so that the search that follows judges the changed tree with
+        its own buffer size / errno values and not with stale ones"""
+        try:
+            return self._gen_extra(ctx, bdir)
+        except X.TieBroken:
+            path = os.path.join(E.LEAN, "NV/Gen/C14.lean")
+            try:
+                old = open(path).read()
+                a = old.index("set_option linter.unusedVariables false")
+                b = old.rindex("\nend NV.Gen.C14")
+                X.gen_consts(self.id, bdir, self.consts, self.const_headers, self.const_prelude, old[a:b].rstrip("\n"))
+            except (OSError, ValueError, X.TieBroken):
+                pass
+            raise
 
     def prepare(self, ctx):
         self.exe = E.compile_harness("c14", [os.path.join(E.VERIF, "harness/c14/c14.c")], exclude_objs=("comm.c.o",))
@@ -151,8 +204,12 @@ class C14(Prop):
         ls = [l for l in Prop.canon(self, lines) if not (l.startswith("logon") or l.startswith("net_dead") or l.startswith("err *"))]
 
         def key(l):
-            t = l.split(" ", 1)[0]
-            return int(t[1:]) if t[:1] == "u" and t[1:].isdigit() else 99
+            ts = l.split(" ", 2)
+            t = ts[0]
+            # the texts a user receives as a snooper are logged by LPC code while ANOTHER user's event is processed; where
+            # they fall between the snooper's own ring events of the same pass depends on the order epoll reports the
+            # events: they form a sub-stream of their own (order among themselves kept; the oracle ignores them)
+            return (int(t[1:]) if t[:1] == "u" and t[1:].isdigit() else 99, 1 if ts[1:2] == ["snoop"] else 0)
         return sorted(ls, key=key)
 
     # ---- boundary -----------------------------------------------------------
@@ -182,8 +239,8 @@ class C14(Prop):
         mk("all-lf-odd-length", [w(b"a"), "sendres W", w(LF * (N // 2 + 5)), "dump"])
         # long message, partial sends of many sizes
         big = b"".join(filler(37, i) + LF for i in range(3 * N // 38 + 1))[:3 * N]
-        mk("3N-partials", ["sendres 1,2,3,100,4095,1,W,5000,7,I,4096", w(big), "dump", "cycle", "wready"])
-        mk("3N-partials-v", ["sendres 1,2,3,100,4095,1,W,5000,7,I,4096", vw(big), "dump", "cycle", "wready"])
+        mk("3N-partials", ["sendres 1,2,3,100,%d,1,W,%d,7,I,%d" % (N - 1, N + 904, N), w(big), "dump", "cycle", "wready"])
+        mk("3N-partials-v", ["sendres 1,2,3,100,%d,1,W,%d,7,I,%d" % (N - 1, N + 904, N), vw(big), "dump", "cycle", "wready"])
         mk("3N-one-by-one", ["sendres " + ",".join(["1"] * 40) + ",W", w(big), "dump"])
         # ring filled, partial send ends exactly at / one before / one after the wrap point
         for r in (1, 7, N // 2, N - 1):
@@ -197,9 +254,9 @@ class C14(Prop):
         mk("wrap-then-refill", [w(filler(100)), "flush", w(filler(N, 3)), "sendres %d,W" % (N - 100), "flush",
                                 "sendres W", w(filler(N, 9)), "dump", "sendres 50,I,50,W", "cycle", "dump", "cycle", "dump"])
         # all-W: tail dropped
-        mk("allW-5000", ["sendres W", w(filler(5000)), "dump", "sendres W", "flush", "wready", "dump"])
+        mk("allW-5000", ["sendres W", w(filler(N + 904)), "dump", "sendres W", "flush", "wready", "dump"])
         mk("allW-lfpair", ["sendres W", w(filler(N - 1) + LF + filler(10)), "dump"])
-        mk("allW-then-more", ["sendres W,W,W", w(filler(5000)), w(b"more" + LF), w(LF), "dump", "wready",
+        mk("allW-then-more", ["sendres W,W,W", w(filler(N + 904)), w(b"more" + LF), w(LF), "dump", "wready",
                               w(b"after" + LF), "dump"])
         # W then later drain
         mk("W-then-drain", [w(b"hello" + LF), "sendres W", "flush", "dump", "wready", "dump", "wready"])
@@ -220,7 +277,7 @@ class C14(Prop):
         # after close
         mk("write-after-close", [w(b"abc" + LF), "close", w(b"def" + LF), vw(b"ghi"), "cycle", "wready", "close"])
         mk("close-partial", [w(filler(200)), "sendres 10,W", "close"])
-        mk("close-wrapped", [w(filler(3000)), "flush", w(filler(3000, 11)), "sendres 500,600", "close"])
+        mk("close-wrapped", [w(filler(3 * N // 4)), "flush", w(filler(3 * N // 4, 11)), "sendres 500,600", "close"])
         # peer events
         mk("peerfin-pending", [w(b"abc" + LF), "peerfin", w(b"x")])
         mk("peerfin-idle", ["peerfin"])
@@ -268,6 +325,47 @@ class C14(Prop):
         mk("peerfin-serves-others", ["@2 sendres W", "@2 " + w(b"pending\n"), "@2 flush", "@1 peerfin", "@2 dump"])
         mk("peerclose-serves-others", ["@2 sendres W", "@2 " + w(b"pending\n"), "@2 flush", "sendres W", w(b"mine\n"),
                                        "sendres 2,P", "@1 peerclose", "@2 dump"])
+        # (A) short newline-free texts (prompts, telnet sequences) straddling the physical end of the ring
+        for r in (N - 1, N - 2, N - 5, N - 30):
+            for ln in (2, 6, 40):
+                mk("straddle-r%d-l%d" % (r, ln), [w(filler(r)), "flush", w(filler(ln, 17)), "dump", "flush", vw(filler(ln, 23)), "dump"])
+                mk("straddle-pending-r%d-l%d" % (r, ln), ["sendres W", w(filler(r)), "sendres %d,W" % (r - 7), "flush",
+                                                          w(filler(ln, 29)), w(filler(ln, 31) + LF), "dump"])
+        mk("straddle-telnet-prompt", ["connect telnet", w(filler(N - 14)), "flush", w(b"HP:100 SP:42> "), "dump", "flush",
+                                      w(b"Name: "), vw(b"Password: "), "dump"])
+        # telnet negotiation replies produced by input processing (copy_chars), interleaved with text output
+        IAC, DO, DONT, WILL, WONT, SB, SE = 255, 253, 254, 251, 252, 250, 240
+
+        def inp(*bs):
+            return "input " + hx(bytes(bs))
+        mk("telnet-input-do", ["connect telnet", inp(IAC, DO, 3), inp(IAC, DO, 6), inp(IAC, DO, 1), w(b"hi\n")])
+        mk("telnet-input-commands", ["connect telnet", inp(IAC, 243, IAC, 244, IAC, 246, IAC, 245, IAC, 241), w(b"hi\n")])
+        mk("telnet-input-will", ["connect telnet", w(b"text\n"), "sendres W", inp(IAC, WILL, 24, IAC, WILL, 34, IAC, WILL, 3,
+                                                                                IAC, WILL, 31, IAC, DONT, 3, IAC, WONT, 34), "wready"])
+        mk("telnet-input-crlf", ["connect telnet", inp(97, 13, 10, 98, 13, 0, 13, 99, 13, 13, 10, 10), "cycle"])
+        mk("telnet-input-split", ["connect telnet", inp(IAC), inp(DO), inp(3), inp(13), inp(10), inp(IAC, SB, 34), inp(1, 0, IAC),
+                                  inp(SE)])
+        mk("telnet-input-lm-mode", ["connect telnet", inp(IAC, SB, 34, 1, 0, IAC, SE), inp(IAC, SB, 34, 1, 4, IAC, SE),
+                                    inp(IAC, WILL, 34), inp(IAC, SB, 34, 1, 1, IAC, SE)])
+        mk("telnet-input-lm-mode-global", ["connect telnet", "@2 connect telnet", "@2 " + inp(IAC, WILL, 34),
+                                           inp(IAC, SB, 34, 1, 0, IAC, SE), "@2 dump"])
+        mk("telnet-input-slc", ["connect telnet", inp(IAC, SB, 34, 3, 1, 2, 3, 4, 5, 6, 7, 8, 9, 16, 17, 18, IAC, SE),
+                                inp(IAC, SB, 34, 3, 0, 0, 0, IAC, SE),
+                                inp(IAC, SB, 34, 3, 5, 2, 65, 6, 1, 3, 7, 3, 32, 8, 128, 9, 200, 1, 0, 19, 2, 1, 1, 2, 127, IAC, SE),
+                                inp(IAC, SB, 34, 3, IAC, IAC, 2, 1, IAC, SE), inp(IAC, SB, 34, 3, IAC, SE)])
+        mk("telnet-input-sb-other", ["connect telnet", inp(IAC, SB, 24, 0, 118, 116, IAC, SE), inp(IAC, SB, 31, 0, 80, 0, 24, IAC, SE),
+                                     inp(IAC, SB, 99, 1, IAC, SE), inp(IAC, SB, 34, 9, IAC, SE), inp(IAC, SB, IAC, 1, SE)])
+        mk("telnet-input-sb-overlong", ["connect telnet", "input " + hx(bytes([IAC, SB, 34, 3] + [1, 2, 3] * 40 + [IAC, SE]))])
+        mk("telnet-input-ring-full", ["connect telnet", "sendres W,W,W,W", w(filler(N - 14)), inp(IAC, DO, 3, IAC, DO, 6),
+                                      inp(IAC, 246), "sendres 5,W", inp(IAC, WILL, 24), "dump"])
+        mk("telnet-input-straddle", ["connect telnet", w(filler(N - 14)), "flush", inp(IAC, DO, 3), inp(IAC, WILL, 34),
+                                     inp(IAC, 246), "dump"])
+        mk("telnet-input-dead", ["connect telnet", "sendres P", inp(IAC, DO, 3, IAC, DO, 6), inp(IAC, 246), "cycle"])
+        mk("telnet-input-snooped", ["connect telnet", "@2 snoop 1", inp(104, 105, IAC, DO, 3, 13, 10), inp(0, 65), "@2 dump"])
+        mk("telnet-input-other-users-pass", ["connect telnet", "@2 sendres W", "@2 " + w(b"pending\n"), "@2 flush",
+                                             inp(IAC, DO, 3), "@2 dump"])
+        mk("telnet-input-ineligible", ["connect ascii", inp(IAC, DO, 3), "@2 connect console", "@2 " + inp(IAC, DO, 3),
+                                       "@3 connect telnet", "@3 close", "@3 " + inp(IAC, DO, 3)])
         # re-entrancy: the snooper's receive_snoop (LPC) writes, destructs, raises an error while add_message is running
         mk("react-echo", ["@2 snoop 1", "@2 react e,e", w(b"seen\n"), vw(b"also\n"), w(b"plain\n"), "@2 dump"])
         mk("react-error-keeps-write-interest", ["@2 snoop 1", "@2 react x", w(b"hi\n"), "cycle"])
@@ -339,6 +437,39 @@ class C14(Prop):
             return rng.weighted([("E104", 6), ("P", 1), ("E11", 2), ("E4", 1)])      # E11/E4: EWOULDBLOCK/EINTR as plain numbers
         return k
 
+    def gen_telnet_input(self, rng):
+        """bytes a telnet client sends: negotiation, commands, sub-negotiations (LINEMODE mode / SLC triplets), line ends"""
+        IAC, DO, DONT, WILL, WONT, SB, SE = 255, 253, 254, 251, 252, 250, 240
+        out = bytearray()
+        for _ in range(rng.range(1, 5)):
+            k = rng.weighted([("neg", 10), ("cmd", 6), ("crlf", 4), ("plain", 3), ("lm", 3), ("slc", 3), ("sb", 2), ("raw", 1)])
+            if k == "neg":
+                out += bytes([IAC, rng.choice([DO, DONT, WILL, WONT]), rng.choice([3, 6, 24, 31, 34, 1, 0, rng.range(0, 255)])])
+            elif k == "cmd":
+                out += bytes([IAC, rng.choice([243, 244, 245, 246, 241, 249, IAC, rng.range(236, 255)])])
+            elif k == "crlf":
+                out += rng.choice([b"\r\n", b"\r\0", b"\r", b"\n", b"\r\r\n", b"x\r\n"])
+            elif k == "plain":
+                out += bytes(rng.range(0x20, 0x7e) for _ in range(rng.range(1, 6)))
+            elif k == "lm":
+                out += bytes([IAC, SB, 34, 1, rng.choice([0, 1, 3, 4, 5, rng.range(0, 255)]), IAC, SE])
+            elif k == "slc":
+                trip = []
+                for _ in range(rng.range(0, 8)):
+                    trip += [rng.choice([0, 1, 5, 18, 19, 30, 127, 128, 200, rng.range(0, 255)]),
+                             rng.choice([0, 1, 2, 3, 0x80, 0x81, 0x82, 0x83, 0x42, rng.range(0, 255)]),
+                             rng.choice([0, 3, 8, 31, 32, 65, 127, 128, IAC, rng.range(0, 255)])]
+                body = bytearray()
+                for b in trip:
+                    body += bytes([IAC, IAC]) if b == IAC else bytes([b])
+                out += bytes([IAC, SB, 34, 3]) + bytes(body) + (bytes([IAC, SE]) if rng.chance(5, 6) else b"")
+            elif k == "sb":
+                out += bytes([IAC, SB, rng.choice([24, 31, 34, 99])]) + bytes(rng.range(0, 254) for _ in range(rng.range(0, 6))) \
+                    + bytes([IAC, SE])
+            else:
+                out += bytes(rng.range(0, 255) for _ in range(rng.range(1, 8)))
+        return bytes(out)
+
     def gen_react(self, rng, nusers):
         toks = []
         for _ in range(rng.range(1, 4)):
@@ -361,7 +492,8 @@ class C14(Prop):
                     body.append("@%d sendres " % u + ",".join(self.gen_tok(rng, 0) for _ in range(rng.range(1, 3))))
                 body.append("@%d connect %s" % (u, kind))
         if rng.chance(1, 2):
-            offset = rng.range(1, N - 1)
+            # a third of the offsets sit just before the physical end: the next short texts straddle it
+            offset = rng.range(N - 60, N - 1) if rng.chance(1, 3) else rng.range(1, N - 1)
             body += [w(filler(offset, rng.below(1000))), "flush"]
         closed = {}
         # a third of the multi-user cases script receive_snoop reactions (re-entrant add_message)
@@ -378,7 +510,8 @@ class C14(Prop):
             k = rng.weighted([("write", 10), ("vwrite", 3), ("sendres", 8), ("flush", 3), ("eflush", 1), ("cycle", 3),
                               ("wready", 4), ("flushall", 1), ("close", 1), ("peerfin", 1), ("peerclose", 1), ("dump", 1),
                               ("snoop", 3 if nusers > 1 else 0), ("unsnoop", 1 if nusers > 1 else 0),
-                              ("react", 2 if nusers > 1 and reactive else 0)])
+                              ("react", 2 if nusers > 1 and reactive else 0),
+                              ("input", 6 if kinds[u] == "telnet" and not reactive else 0)])
             if kinds[u] == "console" and k in ("peerfin", "peerclose"):
                 k = "close"     # the console has no peer socket
             if k in ("write", "vwrite"):
@@ -397,6 +530,15 @@ class C14(Prop):
                 body.append("%ssnoop %d" % (at, rng.range(1, nusers)))
             elif k == "react":
                 body.append("%sreact %s" % (at, self.gen_react(rng, nusers)))
+            elif k == "input":
+                if u in closed:
+                    continue
+                bs = self.gen_telnet_input(rng)
+                if rng.chance(1, 3) and len(bs) > 1:       # a sequence split over two reads
+                    cut = rng.range(1, len(bs) - 1)
+                    body.append("%sinput %s" % (at, hx(bs[:cut])))
+                    bs = bs[cut:]
+                body.append("%sinput %s" % (at, hx(bs)))
             elif k in ("cycle", "wready", "flushall"):
                 body.append(k)
             else:
@@ -419,7 +561,8 @@ class C14(Prop):
              "vwrite_trailing_flush_sends": 0, "writes_on_dead_or_closed": 0,
              "lf_guard_chunk_N_minus_1": 0, "snoop_forwards": 0, "users_ascii_or_default": 0, "users_telnet": 0,
              "users_console": 0, "cases_multi_user": 0, "peerfin": 0, "peerclose": 0, "eflush_or_flushall": 0,
-             "sendres_E_keep": 0, "cases_reactive": 0, "nested_writes": 0, "lpcerr": 0, "react_destructs": 0}
+             "sendres_E_keep": 0, "cases_reactive": 0, "nested_writes": 0, "lpcerr": 0, "react_destructs": 0,
+             "input_cmds": 0, "input_driven_writes": 0, "writes_straddling_ring_end": 0}
         for c in cases:
             users = set()
             for l in c.lines:
@@ -429,6 +572,8 @@ class C14(Prop):
                     t = t[1:]
                 if t[:1] == ["connect"]:
                     h["users_" + ("telnet" if t[1] == "telnet" else "console" if t[1] == "console" else "ascii_or_default")] += 1
+                elif t[:1] == ["input"]:
+                    h["input_cmds"] += 1
                 elif t[:1] == ["peerfin"]:
                     h["peerfin"] += 1
                 elif t[:1] == ["peerclose"]:
@@ -481,8 +626,14 @@ class C14(Prop):
                         h["vwrite_trailing_flush_sends"] += 1
             full = wrapped = dead = False
             pending = 0
+            wrote = False
+            last_prod = {}
+            if any(l.split()[-2:-1] == ["input"] or l.startswith("input ") for l in c.lines):
+                nw = sum(1 for l in c.lines if l.split()[:1] in (["write"], ["vwrite"]) or l.split()[1:2] in (["write"], ["vwrite"]))
+                h["input_driven_writes"] += max(0, sum(1 for l in impl.get(c.id, []) if " wbeg " in l) - nw)
             for l in impl.get(c.id, []):
                 t = l.split()
+                utag = t[0] if t else ""
                 if t and t[0][:1] == "u" and t[0][1:].isdigit():
                     t = t[1:]
                 if not t:
@@ -505,9 +656,14 @@ class C14(Prop):
                     ln = 0 if t[2] == "-" else len(t[2]) // 2
                     h["max_msg_len"] = max(h["max_msg_len"], ln)
                     pending = None  # unknown until the next st line
+                    wrote = True
                 elif t[0] == "close":
                     h["closes"] += 1
                 elif t[0] == "st" and len(t) == 6:
+                    if wrote and last_prod.get(utag) is not None and int(t[2]) < last_prod[utag]:
+                        h["writes_straddling_ring_end"] += 1
+                    last_prod[utag] = int(t[2])
+                    wrote = False
                     pending = int(t[4])
                     if t[1] == "1":
                         h["want_set"] += 1
